@@ -23,6 +23,9 @@ var registry = map[string]checkFn{
 	"C12": checkC12,
 	"C13": checkC13,
 	"C14": checkC14,
+	"C16": checkC16,
+	"C18": checkC18,
+	"C19": checkC19,
 	"C22": checkC22,
 	"C25": checkC25,
 	"C28": checkC28,
@@ -32,6 +35,10 @@ var registry = map[string]checkFn{
 }
 
 func main() {
+	if len(os.Args) >= 4 && os.Args[1] == "dump" {
+		dumpFuncs(os.Args[2], os.Args[3:])
+		return
+	}
 	if len(os.Args) < 3 || os.Args[1] != "check" {
 		ids := []string{}
 		for k := range registry {
